@@ -250,8 +250,8 @@ def byte_parts(P, F, fn, origin):
     cs = contents(P, F, fn, origin)
     parts = []
     for c in cs:
-        if c.kind == "all-of" and c.is_identity() and not c.conds and not c.adapters:
-            parts.append(c.src)
+        if c.kind == "all-of" and c.is_identity() and not c.conds and not [a for a in c.adapters if a not in ("copied", "cloned")]:
+            parts.append(c.src)       # (`a.iter().chain(b.iter()).copied().collect()`: the same bytes)
         elif c.kind == "single" and not c.conds:
             parts.append(("byte", c.expr))
         else:
